@@ -30,6 +30,7 @@ RULE = ('Include graphs of 1-6 files in a fresh temporary directory tree (sub-di
         'root spelling; or a raising body after an edit. Editing-sessions job: one ledger of one-line transactions (3-30 lines with store blocks of 4 tokens, 50-1500 lines with the real block size; LF or CRLF), '
         '3-40 edits inside one edit_file block (tags appended, directives deleted at the beginning / end / anywhere, directives appended); oracle: the non-empty lines of the written file equal the list of lines '
         'the harness maintains with string operations only; non-trivial = >= 5 edits.')
+RULE = RULE + ' Round 8: delrun edit (two neighbouring directives deleted through the filtered view, aimed at a run with a standalone comment inside); byte-shape rule: no new line appears and every standalone comment block of the old file is still there.'
 ASSUMPTIONS = ['symlinks, absolute includes under a relative root, non-UTF-8 and unwritable files are not generated (the property does not speak about them)']
 SHRINK_LISTS = ('edits', 'session')
 REQUIRED_CLASSES = ('shape:uncomment', 'session:lf:4', 'session:lf:1000', 'session:crlf', 'shape:append', 'shape:tokval', 'shape:comment', 'spelling:symlink', 'workspace-dir-with-glob-chars', 'mode:recursive', 'mode:single', 'cr-content-edited', 'spelling:bare', 'spelling:abs', 'glob', 'cycle', 'raise-after-edit',
